@@ -139,6 +139,8 @@ class SimStorage(Storage):
         self.inner = inner
         self.ctl = ctl or NullCtl()
         self.split_threshold = split_threshold
+        self.local_dir = None         # set by the harness when `inner` is a LocalStorage over that directory
+        self.delete_order = None      # None: delete is one step; 'sorted' / 'reverse': file by file
         self.rid = _NEXT[0]
         _NEXT[0] += 1
         _REGISTRY[self.rid] = self
@@ -165,4 +167,34 @@ class SimStorage(Storage):
 
     def delete(self, key: str) -> None:
         self.ctl.storage_op(self, 'delete', key)
+        d = self._plain_key_dir(key)
+        if d is not None:
+            # A recursive delete is not one atomic step: LocalStorage.delete is shutil.rmtree, which
+            # unlinks the files of the entry one at a time (in directory order), object stores delete
+            # object by object in listing order.  Each unlink is a yield / kill / fault point.
+            names = sorted(os.listdir(d))
+            if self.delete_order == 'reverse':
+                names.reverse()
+            for name in names:
+                self.ctl.storage_op(self, 'unlink', key, name)
+                os.unlink(os.path.join(d, name))
+            self.ctl.storage_op(self, 'rmdir', key)
+            os.rmdir(d)
+            return None
         return self.inner.delete(key)
+
+    def _plain_key_dir(self, key: str):
+        """The entry directory, if this wraps a LocalStorage over a known directory and the entry is a
+        flat directory of regular files (otherwise the real delete runs as one step)."""
+        if not self.local_dir or not self.delete_order or not isinstance(key, str) or not key:
+            return None
+        if any(c in key for c in '/\\.') or os.sep in key:
+            return None
+        d = os.path.join(self.local_dir, key)
+        if not os.path.isdir(d) or os.path.islink(d):
+            return None
+        for name in os.listdir(d):
+            full = os.path.join(d, name)
+            if os.path.islink(full) or not os.path.isfile(full):
+                return None
+        return d
